@@ -784,6 +784,7 @@ def _dom_text(tier, seed):
         np.dtype([("s", "S4")]),
         np.dtype([("s", "S3"), ("u", "S2")]),
         np.dtype([("i", ">u8"), ("j", "<i8"), ("k", ">u4"), ("l", ">i2"), ("m", "<u2")]),
+        np.dtype([("w10", "S10"), ("n", "<i4"), ("w11", "S11", (2,)), ("w12", "S12"), ("w9", "S9")]),   # two-digit widths
     ]
     ntab = 3 if tier == "quick" else 40
     k = 0
